@@ -361,10 +361,10 @@ theorem C17_pins_run_by_Setup (cfg : Setup.Cfg) (hk : cfg.keep = false) (hm : cf
     (pins : List (Bool × Str × Str)) (s : Setup.St)
     (hnodup : (pins.map (·.2.1)).Nodup)
     (hfresh : ∀ p ∈ pins, Setup.aget s.already p.2.1 = none ∧ s.env.rec? p.2.1 = none) :
-    (∀ r, runPins declaredS cfg.db pins (fun m => s.env.rec? m) = some r →
+    (∀ r, runPins declaredS cfg pins (recNames s.env) = some r →
       ∃ s', Setup.acts (Setup.setup cfg (fuel + 1)) cfg true 0 false exactVro top (pins.map pinAct) s = .ok s' ∧
-        ∀ m, s'.env.rec? m = r m) ∧
-    (runPins declaredS cfg.db pins (fun m => s.env.rec? m) = none →
+        ∀ m, recNames s'.env m = r m) ∧
+    (runPins declaredS cfg pins (recNames s.env) = none →
       ∃ s', Setup.acts (Setup.setup cfg (fuel + 1)) cfg true 0 false exactVro top (pins.map pinAct) s = .raised s') :=
   acts_pins cfg hk hm fuel top pins s hnodup hfresh
 
@@ -382,11 +382,11 @@ theorem C17_exact_reproduces_over_Setup (cfg : Setup.Cfg) (hk : cfg.keep = false
     (h : expandItems A o lines = .ok items) (hn : noExactLine A o lines = true) (ha : o.addExactBlock = true)
     (hsound : DepsSound A) (hpins : ∀ n v, A.pin n = some v → A.sv n = some v)
     (hcov : ∀ st, readAll A o lines = .ok st → Covered A o st)
-    (hdecl : ∀ n v, A.sv n = some v → declaredS cfg.db n v = true)
+    (hdecl : ∀ n v, A.sv n = some v → declaredS cfg n v = true)
     (hclean : ∀ n, o.toplevel ≠ some n → Setup.aget s.already n = none ∧ s.env.rec? n = none)
     (htop : ∀ v, ∀ n, o.toplevel = some n → (n, v) ∉ (items.filterMap pinKey).map (·.2)) :
     ∃ s', Setup.acts (Setup.setup cfg (fuel + 1)) cfg true 0 false exactVro top ((items.filterMap pinKey).map pinAct) s = .ok s' ∧
-      ∀ n, o.toplevel ≠ some n → s'.env.rec? n = A.sv n := by
+      ∀ n, o.toplevel ≠ some n → recNames s'.env n = A.sv n := by
   obtain ⟨st, c, hr, hc, hpk⟩ := expand_pins h hn ha
   have hsv : ∀ q ∈ c.desired, A.sv q.1 = some q.2 := by
     intro q hq
@@ -395,7 +395,7 @@ theorem C17_exact_reproduces_over_Setup (cfg : Setup.Cfg) (hk : cfg.keep = false
       · exact h1
       · exact hpins _ _ h1
     · rw [← hdn, ← hdv]; exact hsound n0 v0 l hl d hd
-  have hall : ∀ x ∈ c.pinKeys, declaredS cfg.db x.2.1 x.2.2 = true ∧ A.sv x.2.1 = some x.2.2 := by
+  have hall : ∀ x ∈ c.pinKeys, declaredS cfg x.2.1 x.2.2 = true ∧ A.sv x.2.1 = some x.2.2 := by
     intro x hx
     simp only [CState.pinKeys, List.mem_map] at hx
     obtain ⟨⟨n, v⟩, hq, rfl⟩ := hx
@@ -407,7 +407,7 @@ theorem C17_exact_reproduces_over_Setup (cfg : Setup.Cfg) (hk : cfg.keep = false
     rw [hpk]
     exact List.mem_map_of_mem (f := fun y : Bool × Str × Str => y.2) hx
   rw [hpk]
-  obtain ⟨r, hrun, hspec⟩ := runPins_spec declaredS cfg.db A.sv c.pinKeys (fun m => s.env.rec? m) hall
+  obtain ⟨r, hrun, hspec⟩ := runPins_spec declaredS cfg A.sv c.pinKeys (recNames s.env) hall
   obtain ⟨hok, _⟩ := acts_pins cfg hk hm fuel top c.pinKeys s
     (pinKeys_names_nodup (collect_nodup hc) hsv) (fun p hp => hclean p.2.1 (hnames p hp))
   obtain ⟨s', hs', hrecs⟩ := hok r hrun
@@ -415,7 +415,7 @@ theorem C17_exact_reproduces_over_Setup (cfg : Setup.Cfg) (hk : cfg.keep = false
   rw [hrecs]
   by_cases hin : ∃ x ∈ c.pinKeys, x.2.1 = n
   · exact (hspec n).1 hin
-  · rw [(hspec n).2 hin, (hclean n hne).2]
+  · rw [(hspec n).2 hin]; simp only [recNames, (hclean n hne).2, Option.map_none]
     cases hs : A.sv n with
     | none => rfl
     | some v =>
@@ -563,23 +563,23 @@ example : DepsSound A1 :=
 moved), the state in which only the top product `a 1` is set up, and the expansion `items1` of the example above; the
 theorem then says that the exact-mode action loop on the three pin actions records `b 1`, `c 2`, `d 1`. -/
 def setupDb1 : Setup.Db :=
-  { decls := [⟨str! "a", str! "1", str! "/s/a/1", []⟩, ⟨str! "b", str! "1", str! "/s/b/1", [(.always, .dep (str! "c") false false none none [])]⟩,
-              ⟨str! "b", str! "7", str! "/s/b/7", []⟩, ⟨str! "c", str! "2", str! "/s/c/2", []⟩, ⟨str! "c", str! "8", str! "/s/c/8", []⟩,
-              ⟨str! "d", str! "1", str! "/s/d/1", [(.always, .dep (str! "c") false false none none [])]⟩],
-    tags := [(Setup.tagCurrent, str! "b", str! "7"), (Setup.tagCurrent, str! "c", str! "8")] }
-def setupCfg1 : Setup.Cfg := ⟨setupDb1, false, none, true⟩
-def topDecl1 : Setup.Decl := ⟨str! "a", str! "1", str! "/s/a/1", []⟩
+  { decls := [⟨str! "a", (str! "1", 0), str! "/s/a/1", []⟩, ⟨str! "b", (str! "1", 0), str! "/s/b/1", [(.always, .dep (str! "c") false false none none [] false)]⟩,
+              ⟨str! "b", (str! "7", 0), str! "/s/b/7", []⟩, ⟨str! "c", (str! "2", 0), str! "/s/c/2", []⟩, ⟨str! "c", (str! "8", 0), str! "/s/c/8", []⟩,
+              ⟨str! "d", (str! "1", 0), str! "/s/d/1", [(.always, .dep (str! "c") false false none none [] false)]⟩],
+    tags := [(Setup.tagCurrent, str! "b", (str! "7", 0)), (Setup.tagCurrent, str! "c", (str! "8", 0))] }
+def setupCfg1 : Setup.Cfg := ⟨setupDb1, [0], false, none, true⟩
+def topDecl1 : Setup.Decl := ⟨str! "a", (str! "1", 0), str! "/s/a/1", []⟩
 def setupSt1 : Setup.St :=
-  ⟨⟨[(str! "a", str! "1")], [], [], []⟩, [], [], [(str! "a", (topDecl1, some .commandLine))]⟩
+  ⟨⟨[(str! "a", (str! "1", 0))], [], [], []⟩, [], [], [(str! "a", (topDecl1, some .commandLine))], []⟩
 
 example : ∃ s', Setup.acts (Setup.setup setupCfg1 2) setupCfg1 true 0 false exactVro topDecl1 ((items1.filterMap pinKey).map pinAct) setupSt1 = .ok s' ∧
-    ∀ n, o1.toplevel ≠ some n → s'.env.rec? n = D1.toAnswers.sv n :=
+    ∀ n, o1.toplevel ≠ some n → recNames s'.env n = D1.toAnswers.sv n :=
   C17_exact_reproduces_over_Setup setupCfg1 rfl rfl 1 topDecl1 setupSt1 D1.toAnswers o1 T1 items1 expand1 (by decide +kernel) rfl
     (depsSound_of_data (by decide +kernel)) (pinsAgree_of_data (by decide +kernel)) (covered_of_data (by decide +kernel))
     (by
       intro n v h
       have hm := lookup_mem (l := D1.sv) h
-      have : ∀ e ∈ D1.sv, declaredS setupDb1 e.1 e.2 = true := by decide +kernel
+      have : ∀ e ∈ D1.sv, declaredS setupCfg1 e.1 e.2 = true := by decide +kernel
       exact this (n, v) hm)
     (by
       intro n hne
